@@ -1128,6 +1128,8 @@ static int sch_etrs(sess_t *s) {
 		case 0:
 			log_rc(s, "genpp", cp_ers_gen(s->e[0]));
 			for (int i = 0; i < 3; i++) { log_rc(s, "genkey", cp_ers_gen_key(s->b[i], s->e[1 + i])); }
+			log_rc(s, "genkey", cp_ers_gen_key(s->b[3], s->e[4]));		/* a second signer who may join later */
+			s->opt[3] = 1;													/* number of actual signers */
 			return 1;
 		case 1:
 			log_rc(s, "sig", cp_etrs_sig(s->b + 4, s->b + 8, 4, ra[0], s->msg, s->msg_len, s->b[0], s->e[1], s->e[0]));
@@ -1142,8 +1144,16 @@ static int sch_etrs(sess_t *s) {
 			}
 			s->blen[5] = size;
 			s->blen[4] = size - 1;			/* entries of td/y consumed by the extensions */
+			if (s->opt[6] & 1) {
+				/* opt cls: a second signer joins after the extensions (sign -> extend* -> join) */
+				size_t used = size - 1;
+				int rc = cp_etrs_uni(1, s->b + 4 + used, s->b + 8 + used, (int)(4 - used), (etrs_t *)ra, &size, s->msg, s->msg_len, s->b[3], s->e[4], s->e[0]);
+				log_rc(s, "uni", rc);
+				if (rc == RLC_OK) { s->blen[5] = size; s->opt[3] = 2; }
+			}
 			{
 				fault_t *f = find_fault(s, "forge");
+				size = s->blen[5];
 				if (f && !strcmp(f->kind, "v_forgeext") && size < 3) {
 					/* a ring member forged without using up a trapdoor slot: a fresh evaluation point, h = [t]G for
 					 * a known t and a proof for the h-side, exactly what cp_etrs_ext builds - but the point is not
@@ -1190,13 +1200,14 @@ static int sch_etrs(sess_t *s) {
 		case 4:
 			if (s->flag[0]) {
 				size_t used = s->blen[4];
-				log_ver(s, "ver", cp_etrs_ver(1, (const bn_t *)(s->b + 12 + used), (const bn_t *)(s->b + 16 + used), 4 - used,
+				size_t nsig = s->opt[3];
+				log_ver(s, "ver", cp_etrs_ver(nsig, (const bn_t *)(s->b + 12 + used), (const bn_t *)(s->b + 16 + used), 4 - used,
 						(const etrs_t *)rb, s->blen[5], s->buf[0], s->blen[0], s->e[5]) == 1);
 				/* a higher threshold than the number of actual signers (one) must not verify.  With
 				 * thres > size cp_etrs_ver indexes its scratch arrays out of bounds (known finding), so that
 				 * case is only driven when the plan asks for it (opt n = 7). */
-				if (s->blen[5] >= 2 || s->opt[5] == 7) {
-					log_ver(s, "ver2", cp_etrs_ver(2, (const bn_t *)(s->b + 12 + used), (const bn_t *)(s->b + 16 + used), 4 - used,
+				if (s->blen[5] >= nsig + 1 || s->opt[5] == 7) {
+					log_ver(s, "ver2", cp_etrs_ver(nsig + 1, (const bn_t *)(s->b + 12 + used), (const bn_t *)(s->b + 16 + used), 4 - used,
 							(const etrs_t *)rb, s->blen[5], s->buf[0], s->blen[0], s->e[5]) == 1);
 				}
 			} else tr_printf("VER %d ver decode-failed\n", s->sid);
